@@ -314,7 +314,7 @@ pub fn run(run: &Run) {
             }
         };
         bfs(&eng, vec![rootn], if thorough { 6 } else { 3 }, 200_000, &acts, &visit);
-        let parents: Vec<Node> = canonical_order(collected.into_inner()).into_iter().take(if thorough { 60 } else { 6 }).collect();
+        let parents: Vec<Node> = canonical_order(collected.into_inner()).into_iter().take(if thorough { 60 } else { 14 }).collect();
         total_parents += parents.len();
         let mut ccfg = AlphaCfg::base();
         ccfg.per_denom = 2;
